@@ -154,28 +154,34 @@ Definition cmds_ok (i : input) (rl : list N) (net : bytes) : bool :=
      (seq 0 (S (length (i_rcpts i)))).
 
 (* ------------------------------------------------------------------ the property *)
+(** the clauses that speak about the report letters (first byte of every report, in order)
+    and the socket bytes *)
+Definition spec_letters (i : input) (letters : list N) (net : bytes) : bool :=
+  let n := length (i_rcpts i) in
+  let rl := take_while is_rcpt_letter letters in        (* recipient reports *)
+  let ml := skipn (length rl) letters in                (* what follows them *)
+  (* a non-empty sequence of reports *)
+  negb (Nat.eqb (length letters) 0)
+  (* at most one recipient report per recipient, then at most one message report, nothing else *)
+  && Nat.leb (length rl) n && Nat.leb (length ml) 1 && forallb is_msg_letter ml
+  (* letters r/s/h exactly for 2xx/4xx/5xx replies to that RCPT TO, in order *)
+  && (Nat.eqb (length rl) 0 || mail_accepted (i_script i)) && letters_match_from 1 (i_script i) rl
+  (* message report present when a recipient was accepted or none was reported *)
+  && (negb (existsb (N.eqb L_r) rl || Nat.eqb (length rl) 0) || Nat.eqb (length ml) 1)
+  (* K only for a 2xx answer to the end of data, all recipients answered, one accepted *)
+  && (negb (existsb (N.eqb L_K) ml)
+      || (match reply_code (reply_at (n + 2) (i_script i)) with Some c => is_2xx c | None => false end
+          && Nat.eqb (length rl) n && existsb (N.eqb L_r) rl))
+  (* the commands *)
+  && cmds_ok i rl net.
+
 Definition spec_ok_C04 (i : input) (o : obs) : bool :=
   match o with
   | Obs code status net =>
-      let n := length (i_rcpts i) in
       let '(reps, rest) := split0 status in
-      let letters := map (fun r => hd 0%N r) reps in
-      let rl := take_while is_rcpt_letter letters in        (* recipient reports *)
-      let ml := skipn (length rl) letters in                (* what follows them *)
-      (* exit status 0; a non-empty sequence of NUL-terminated reports *)
-      Nat.eqb code 0 && bytes_eqb rest [] && negb (Nat.eqb (length reps) 0)
-      (* at most one recipient report per recipient, then at most one message report, nothing else *)
-      && Nat.leb (length rl) n && Nat.leb (length ml) 1 && forallb is_msg_letter ml
-      (* letters r/s/h exactly for 2xx/4xx/5xx replies to that RCPT TO, in order *)
-      && (Nat.eqb (length rl) 0 || mail_accepted (i_script i)) && letters_match_from 1 (i_script i) rl
-      (* message report present when a recipient was accepted or none was reported *)
-      && (negb (existsb (N.eqb L_r) rl || Nat.eqb (length rl) 0) || Nat.eqb (length ml) 1)
-      (* K only for a 2xx answer to the end of data, all recipients answered, one accepted *)
-      && (negb (existsb (N.eqb L_K) ml)
-          || (match reply_code (reply_at (n + 2) (i_script i)) with Some c => is_2xx c | None => false end
-              && Nat.eqb (length rl) n && existsb (N.eqb L_r) rl))
-      (* the commands *)
-      && cmds_ok i rl net
+      (* exit status 0; every byte of the stream belongs to a NUL-terminated, non-empty report *)
+      Nat.eqb code 0 && bytes_eqb rest [] && forallb (fun r => negb (Nat.eqb (length r) 0)) reps
+      && spec_letters i (map (fun r => hd 0%N r) reps) net
   | _ => false
   end.
 
